@@ -166,7 +166,7 @@ fn c17_inject() {
 /// obligations): the real `allocate_jit_memory_unix` with the page size forced to 64 MiB, so that the
 /// search makes at most 5 attempts; every attempt either fails or returns an arbitrary address.
 #[kani::proof]
-#[kani::unwind(8)]
+#[kani::unwind(10)]
 fn c11_alloc_twin() {
     let src: usize = kani::any();
     kani::assume(src != 0 && src < 0x8000_0000_0000);
